@@ -45,6 +45,12 @@ def expandKey (k : Bytes) : Option Key :=
     if h : WfKeys (Aes.keyExpansion k) then some ⟨Aes.keyExpansion k, h⟩ else none
   else none
 
+/-- the key argument of `crypto_aesctr_init2`: `none` = NULL (retain the key), otherwise a newly expanded key;
+    outer `none` = that key cannot be expanded -/
+def newKeyArg : Option Bytes → Option (Option Key)
+  | none => some none
+  | some k => (expandKey k).map some
+
 /-- what the harness writes into the indeterminate bytes of a freshly allocated stream -/
 def poison : Bytes := List.replicate 16 0xa5
 
@@ -102,6 +108,11 @@ def Out.mismatch : Out → Bool
   | .big _ _ _ _ same _ _ => !same
   | .buf _ same => !same
   | _ => false
+
+/-- the Spec's bytes (the L1 part) of the answer to a `stream` op -/
+def Out.want : Out → Bytes
+  | .stream want _ _ => want
+  | _ => []
 
 /-- one stream call: Spec answer, model answer, new state -/
 def doStream (hw : Bool) (l : Live) (data : Bytes) : Option (Live × Bytes × Bool) :=
@@ -182,10 +193,7 @@ def stepOp (st : St) : Op → St × Out
   | .init2 nonce newkey =>
     match st.live with
     | some l =>
-      let nk? : Option (Option Key) := match newkey with
-        | none => some none
-        | some k => (expandKey k).map some
-      match nk? with
+      match newKeyArg newkey with
       | none => (st, .skip)
       | some nk =>
         match AesCtr.init2 l.s nk nonce with
